@@ -1,0 +1,25 @@
+"""Tracing hooks for the external verification harness.
+
+Inactive unless the environment variable XEOFS_VERIF is set to "1" when xeofs
+is imported: `emit` then returns immediately and nothing is recorded.
+"""
+
+import os
+
+enabled = os.environ.get("XEOFS_VERIF") == "1"
+_events: list = []
+
+
+def emit(event: str, **fields) -> None:
+    """Record one event (no-op unless enabled)."""
+    if not enabled:
+        return
+    _events.append(dict(event=event, **fields))
+
+
+def events() -> list:
+    return list(_events)
+
+
+def reset() -> None:
+    _events.clear()
